@@ -26,9 +26,10 @@ structure Core where
   connected : Bool
   slowCount : Nat
   emitted : List Nat
+  timeouts : List (Nat × Nat)
 
 def Engine.core (e : Engine) : Core :=
-  ⟨e.ops, e.nextOpId, e.pendingWC, e.cfg.drainOneAtATime, e.state == .connected, e.slowStartCount, e.outComps.map (·.1)⟩
+  ⟨e.ops, e.nextOpId, e.pendingWC, e.cfg.drainOneAtATime, e.state == .connected, e.slowStartCount, e.outComps.map (·.1), e.timeouts⟩
 
 /-- the conserved quantity: user operations still tracked, plus those resolved in the step in progress -/
 def Core.Q (c : Core) : List Nat := trackedIdx c.ops ++ c.emitted
@@ -39,6 +40,9 @@ structure Core.Ok (c : Core) : Prop where
   userKind : ∀ x ∈ c.ops, x.2.user.isSome = true → isUserKind x.2.packet = true
   wc : ∀ id ∈ c.pendingWC, id < c.nextOpId ∧ ∀ o, c.ops.lookup id = some o → isSubUnsub o.packet = false
   slow : c.drain = true → c.connected = true → c.slowCount = (c.ops.map (·.2.slowStart)).sum
+  /-- an ack-timeout record names an operation number that has been handed out, and as long as that operation is tracked it
+      is one that was submitted with an ack timeout (and is not a QoS 0 publish) -/
+  to : ∀ x ∈ c.timeouts, x.1 < c.nextOpId ∧ ∀ o, c.ops.lookup x.1 = some o → o.ackTimeout.isSome = true
 
 /-- `e'` is reached from `e` keeping the invariant and resolving nothing silently: the invariant is kept and the
     conserved quantity is the same multiset -/
@@ -68,7 +72,7 @@ theorem Core.Ok.erase {c : Core} (h : c.Ok) {id : Nat} {o : Op} (ho : c.ops.look
     c'.Ok ∧ c'.Q.Perm c.Q := by
   intro c'
   have hperm := perm_cons_mapErase h.sorted ho
-  refine ⟨⟨h.sorted.mapErase id, ?_, ?_, ?_, ?_⟩, ?_⟩
+  refine ⟨⟨h.sorted.mapErase id, ?_, ?_, ?_, ?_, ?_⟩, ?_⟩
   · intro x hx; exact h.ids x (mem_mapErase.mp hx).1
   · intro x hx; exact h.userKind x (mem_mapErase.mp hx).1
   · intro i hi
@@ -86,6 +90,12 @@ theorem Core.Ok.erase {c : Core} (h : c.Ok) {id : Nat} {o : Op} (ho : c.ops.look
       simpa using this
     show sc = ((mapErase c.ops id).map (·.2.slowStart)).sum
     rw [hsc hd hcn', hs, hsum]; omega
+  · intro x hx
+    refine ⟨(h.to x hx).1, fun o' ho' => ?_⟩
+    by_cases hii : x.1 = id
+    · rw [show (c'.ops) = mapErase c.ops id from rfl, hii, lookup_mapErase_self] at ho'; cases ho'
+    · rw [show (c'.ops) = mapErase c.ops id from rfl, lookup_mapErase_ne _ _ _ hii] at ho'
+      exact (h.to x hx).2 o' ho'
   · have ht := trackedIdx_perm hperm
     show (trackedIdx (mapErase c.ops id) ++ (c.emitted ++ (o.user.map (·.1)).toList)).Perm (trackedIdx c.ops ++ c.emitted)
     cases hu : o.user with
@@ -101,14 +111,14 @@ theorem Core.Ok.erase {c : Core} (h : c.Ok) {id : Nat} {o : Op} (ho : c.ops.look
 /-- replacing a tracked operation by one with the same identity, owner, kind and slow-start mark -/
 theorem Core.Ok.replace {c : Core} (h : c.Ok) {o0 o : Op} (ho : c.ops.lookup o.id = some o0)
     (hu : o.user = o0.user) (hk : isUserKind o.packet = isUserKind o0.packet) (hsu : isSubUnsub o.packet = isSubUnsub o0.packet)
-    (hss : o.slowStart = o0.slowStart) :
+    (hss : o.slowStart = o0.slowStart) (hat : o.ackTimeout = o0.ackTimeout) :
     let c' : Core := { c with ops := mapInsert c.ops o.id o }
     c'.Ok ∧ c'.Q.Perm c.Q := by
   intro c'
   have hp1 := perm_cons_mapErase h.sorted ho
   have hp2 := mapInsert_perm_of_some h.sorted o ho
   have hin0 := mem_of_lookup ho
-  refine ⟨⟨h.sorted.mapInsert _ _, ?_, ?_, ?_, ?_⟩, ?_⟩
+  refine ⟨⟨h.sorted.mapInsert _ _, ?_, ?_, ?_, ?_, ?_⟩, ?_⟩
   · intro x hx
     rcases mem_mapInsert hx with rfl | hx'
     · exact ⟨rfl, (h.ids _ hin0).2⟩
@@ -133,6 +143,13 @@ theorem Core.Ok.replace {c : Core} (h : c.Ok) {o0 o : Op} (ho : c.ops.lookup o.i
     show c.slowCount = ((mapInsert c.ops o.id o).map (·.2.slowStart)).sum
     simp only [List.map_cons, List.sum_cons] at e1 e2
     rw [hs, e1, e2, hss]
+  · intro x hx
+    refine ⟨(h.to x hx).1, fun o' ho' => ?_⟩
+    by_cases hii : x.1 = o.id
+    · rw [show c'.ops = mapInsert c.ops o.id o from rfl, hii, lookup_mapInsert_self] at ho'
+      cases ho'; rw [hat]; exact (h.to x hx).2 o0 (by rw [hii]; exact ho)
+    · rw [show c'.ops = mapInsert c.ops o.id o from rfl, lookup_mapInsert_ne _ _ _ _ hii] at ho'
+      exact (h.to x hx).2 o' ho'
   · have t1 := trackedIdx_perm hp1
     have t2 := trackedIdx_perm hp2
     show (trackedIdx (mapInsert c.ops o.id o) ++ c.emitted).Perm (trackedIdx c.ops ++ c.emitted)
@@ -149,7 +166,7 @@ theorem Core.Ok.create {c : Core} (h : c.Ok) (p : Packet) (user : Option (Nat ×
   intro c'
   have hnone : c.ops.lookup c.nextOpId = none := lookup_none_of_lt (fun y hy => (h.ids y hy).2)
   have hp := mapInsert_perm_of_none ({ id := c.nextOpId, packet := p, user := user } : Op) hnone
-  refine ⟨⟨h.sorted.mapInsert _ _, ?_, ?_, ?_, ?_⟩, ?_⟩
+  refine ⟨⟨h.sorted.mapInsert _ _, ?_, ?_, ?_, ?_, ?_⟩, ?_⟩
   · intro x hx
     rcases mem_mapInsert hx with rfl | hx'
     · exact ⟨rfl, Nat.lt_succ_self _⟩
@@ -170,6 +187,11 @@ theorem Core.Ok.create {c : Core} (h : c.Ok) (p : Packet) (user : Option (Nat ×
     show c.slowCount = ((mapInsert c.ops c.nextOpId _).map (·.2.slowStart)).sum
     simp only [List.map_cons, List.sum_cons] at e1
     rw [hs, e1]; simp
+  · intro x hx
+    have hlt := (h.to x hx).1
+    refine ⟨Nat.lt_succ_of_lt hlt, fun o' ho' => ?_⟩
+    rw [show c'.ops = mapInsert c.ops c.nextOpId _ from rfl, lookup_mapInsert_ne _ _ _ _ (Nat.ne_of_lt hlt)] at ho'
+    exact (h.to x hx).2 o' ho'
   · have t := trackedIdx_perm hp
     show (trackedIdx (mapInsert c.ops c.nextOpId _) ++ c.emitted).Perm ((user.map (·.1)).toList ++ (trackedIdx c.ops ++ c.emitted))
     rw [← List.append_assoc]
@@ -277,7 +299,7 @@ theorem completeFailure_core (e : Engine) (id : Nat) (k : String) (o : Op) (ho :
       obtain ⟨idx, t⟩ := u
       simp only [Option.map_some, Option.toList_some]
       simp only [Engine.core, Engine.emit, Core.mk.injEq, List.map_append, List.map_cons, List.map_nil] at hcore ⊢
-      exact ⟨hcore.1, hcore.2.1, hcore.2.2.1, hcore.2.2.2.1, trivial, hcore.2.2.2.2.2.1, by rw [hcore.2.2.2.2.2.2]⟩
+      exact ⟨hcore.1, hcore.2.1, hcore.2.2.1, hcore.2.2.2.1, trivial, hcore.2.2.2.2.2.1, by rw [hcore.2.2.2.2.2.2.1], hcore.2.2.2.2.2.2.2⟩
 
 theorem completeFailure_pres (e : Engine) (id : Nat) (k : String) : Pres e (e.completeFailure id k).1 := by
   intro hok
@@ -408,7 +430,7 @@ theorem completeSuccess_core (e : Engine) (id : Nat) (c : Option Completion) (o 
       obtain ⟨res, hres'⟩ := Option.isSome_iff_exists.mp hr
       simp only [hres', Option.map_some, Option.toList_some]
       simp only [Engine.core, Engine.emit, Core.mk.injEq, List.map_append, List.map_cons, List.map_nil] at hcore ⊢
-      exact ⟨hcore.1, hcore.2.1, hcore.2.2.1, hcore.2.2.2.1, trivial, hcore.2.2.2.2.2.1, by rw [hcore.2.2.2.2.2.2]⟩
+      exact ⟨hcore.1, hcore.2.1, hcore.2.2.1, hcore.2.2.2.1, trivial, hcore.2.2.2.2.2.1, by rw [hcore.2.2.2.2.2.2.1], hcore.2.2.2.2.2.2.2⟩
 
 theorem Core.Ok.disconnect_unowned {c : Core} (hok : c.Ok) {id : Nat} {o : Op} (ho : c.ops.lookup id = some o) :
     isDisconnect o.packet = true → o.user = none := by
@@ -651,10 +673,11 @@ theorem handleUser_presAdd (e : Engine) (u : UserEvent) : PresAdd u.idx e (e.han
 
 /-- replacing a tracked operation by a variant of itself -/
 theorem setOp_pres (e : Engine) (o0 o : Op) (ho : e.op? o.id = some o0) (hu : o.user = o0.user)
-    (hk : isUserKind o.packet = isUserKind o0.packet) (hsu : isSubUnsub o.packet = isSubUnsub o0.packet) (hss : o.slowStart = o0.slowStart) :
+    (hk : isUserKind o.packet = isUserKind o0.packet) (hsu : isSubUnsub o.packet = isSubUnsub o0.packet) (hss : o.slowStart = o0.slowStart)
+    (hat : o.ackTimeout = o0.ackTimeout) :
     Pres e (e.setOp o) := by
   intro hok
-  exact hok.replace (show e.core.ops.lookup o.id = some o0 from ho) hu hk hsu hss
+  exact hok.replace (show e.core.ops.lookup o.id = some o0 from ho) hu hk hsu hss hat
 
 theorem Core.Ok.id_eq {c : Core} (h : c.Ok) {id : Nat} {o : Op} (ho : c.ops.lookup id = some o) : o.id = id :=
   (h.ids _ (mem_of_lookup ho)).1
@@ -665,6 +688,16 @@ theorem setDup_kind (p : Packet) (v : Bool) : isUserKind (setDup p v) = isUserKi
 theorem withPacketId_kind (p : Packet) (n : Nat) : isUserKind (withPacketId p n) = isUserKind p ∧ isSubUnsub (withPacketId p n) = isSubUnsub p := by
   cases p <;> exact ⟨rfl, rfl⟩
 
+theorem isQos0Publish_setDup (p : Packet) (v : Bool) : isQos0Publish (setDup p v) = isQos0Publish p := by
+  cases p <;> rfl
+
+theorem isQos0Publish_withPacketId (p : Packet) (n : Nat) : isQos0Publish (withPacketId p n) = isQos0Publish p := by
+  cases p <;> rfl
+
+theorem ackTimeout_congr {o o' : Op} (hp : isQos0Publish o'.packet = isQos0Publish o.packet) (hu : o'.user = o.user) :
+    o'.ackTimeout = o.ackTimeout := by
+  unfold Op.ackTimeout; rw [hp, hu]
+
 theorem setDupFlag_pres (e : Engine) (id : Nat) (v : Bool) : Pres e (e.setDupFlag id v) := by
   intro hok
   unfold Engine.setDupFlag
@@ -672,7 +705,7 @@ theorem setDupFlag_pres (e : Engine) (id : Nat) (v : Bool) : Pres e (e.setDupFla
   | none => exact ⟨hok, List.Perm.refl _⟩
   | some o =>
     have hid := hok.id_eq (show e.core.ops.lookup id = some o from ho)
-    exact setOp_pres e o { o with packet := setDup o.packet v } (by simpa [hid] using ho) rfl (setDup_kind _ _).1 (setDup_kind _ _).2 rfl hok
+    exact setOp_pres e o { o with packet := setDup o.packet v } (by simpa [hid] using ho) rfl (setDup_kind _ _).1 (setDup_kind _ _).2 rfl (ackTimeout_congr (isQos0Publish_setDup _ _) rfl) hok
 
 theorem clearQos2_pres (e : Engine) (id : Nat) : Pres e (e.clearQos2 id) := by
   intro hok
@@ -681,7 +714,7 @@ theorem clearQos2_pres (e : Engine) (id : Nat) : Pres e (e.clearQos2 id) := by
   | none => exact ⟨hok, List.Perm.refl _⟩
   | some o =>
     have hid := hok.id_eq (show e.core.ops.lookup id = some o from ho)
-    exact setOp_pres e o { o with pubrel := none } (by simpa [hid] using ho) rfl rfl rfl rfl hok
+    exact setOp_pres e o { o with pubrel := none } (by simpa [hid] using ho) rfl rfl rfl rfl rfl hok
 
 theorem unbind_pres (e : Engine) (id : Nat) : Pres e (e.unbind id) := by
   intro hok
@@ -697,7 +730,7 @@ theorem unbind_pres (e : Engine) (id : Nat) : Pres e (e.unbind id) := by
       simp only []
       have h1 : Pres e { e with allocated := mapErase e.allocated pid } := Pres.of_core_eq rfl
       have h2 := setOp_pres { e with allocated := mapErase e.allocated pid } o { o with packetId := none, packet := withPacketId o.packet 0 }
-        (by simpa [hid, Engine.op?] using ho) rfl (withPacketId_kind _ _).1 (withPacketId_kind _ _).2 rfl
+        (by simpa [hid, Engine.op?] using ho) rfl (withPacketId_kind _ _).1 (withPacketId_kind _ _).2 rfl (ackTimeout_congr (isQos0Publish_withPacketId _ _) rfl)
       exact (h1.trans h2) hok
 
 theorem acquireFreeId_core (e : Engine) (opId : Nat) : (e.acquireFreeId opId).1.core = e.core ∧ (e.acquireFreeId opId).1.ops = e.ops := by
@@ -729,7 +762,7 @@ theorem acquireIdFor_pres (e : Engine) (id : Nat) : Pres e (e.acquireIdFor id).1
           rw [this]
           simp only []
           have h2 := setOp_pres (e.acquireFreeId id).1 o { o with packetId := some pid, packet := withPacketId o.packet pid }
-            (by simp only [Engine.op?, hc.2, hid]; exact ho) rfl (withPacketId_kind _ _).1 (withPacketId_kind _ _).2 rfl
+            (by simp only [Engine.op?, hc.2, hid]; exact ho) rfl (withPacketId_kind _ _).1 (withPacketId_kind _ _).2 rfl (ackTimeout_congr (isQos0Publish_withPacketId _ _) rfl)
           exact (h1.trans h2) hok
 
 /-! ### connection opened / closed / write completion -/
@@ -738,7 +771,13 @@ theorem acquireIdFor_pres (e : Engine) (id : Nat) : Pres e (e.acquireIdFor id).1
 theorem Pres.of_core_conn {e e' : Engine} (b : Bool) (h : e'.core = { e.core with connected := b })
     (hb : b = true → e.core.connected = true) : Pres e e' := fun hk => by
   rw [h]
-  exact ⟨⟨hk.sorted, hk.ids, hk.userKind, hk.wc, fun hd hc => hk.slow hd (hb hc)⟩, List.Perm.refl _⟩
+  exact ⟨⟨hk.sorted, hk.ids, hk.userKind, hk.wc, fun hd hc => hk.slow hd (hb hc), hk.to⟩, List.Perm.refl _⟩
+
+/-- ... and ack-timeout records are only dropped -/
+theorem Pres.of_core_conn_to {e e' : Engine} (b : Bool) (t : List (Nat × Nat)) (h : e'.core = { e.core with connected := b, timeouts := t })
+    (hb : b = true → e.core.connected = true) (ht : ∀ x ∈ t, x ∈ e.core.timeouts) : Pres e e' := fun hk => by
+  rw [h]
+  exact ⟨⟨hk.sorted, hk.ids, hk.userKind, hk.wc, fun hd hc => hk.slow hd (hb hc), fun x hx => hk.to x (ht x hx)⟩, List.Perm.refl _⟩
 
 theorem handleOpened_pres (e : Engine) (d : Nat) : Pres e (e.handleOpened d).1 := by
   unfold Engine.handleOpened
@@ -810,7 +849,7 @@ theorem Core.Ok.mapOps {c : Core} (h : c.Ok) (g : Nat → Op → Op)
   intro c'
   have hkeys : (c.ops.map (fun x => (x.1, g x.1 x.2))).map (·.1) = c.ops.map (·.1) := by
     simp [List.map_map, Function.comp_def]
-  refine ⟨⟨?_, ?_, ?_, ?_, ?_⟩, ?_⟩
+  refine ⟨⟨?_, ?_, ?_, ?_, ?_, ?_⟩, ?_⟩
   · show KeysSorted (c.ops.map _)
     unfold KeysSorted; rw [hkeys]; exact h.sorted
   · intro x hx
@@ -838,6 +877,16 @@ theorem Core.Ok.mapOps {c : Core} (h : c.Ok) (g : Nat → Op → Op)
         simp [List.map_map, Function.comp_def, hs]
       show c.slowCount = ((c.ops.map (fun x => (x.1, g x.1 x.2))).map (·.2.slowStart)).sum
       rw [this]; exact h.slow hd hcn
+  · intro x hx
+    refine ⟨(h.to x hx).1, fun o' ho' => ?_⟩
+    rw [show c'.ops = c.ops.map (fun x => (x.1, g x.1 x.2)) from rfl, lookup_mapOps] at ho'
+    cases hl : c.ops.lookup x.1 with
+    | none => rw [hl] at ho'; cases ho'
+    | some o =>
+      rw [hl] at ho'; simp only [Option.map_some, Option.some.injEq] at ho'
+      subst ho'
+      have := (h.to x hx).2 o hl
+      simpa [Op.ackTimeout, (hg x.1 o).2.1, (hg x.1 o).2.2] using this
   · show (trackedIdx (c.ops.map (fun x => (x.1, g x.1 x.2))) ++ c.emitted).Perm (trackedIdx c.ops ++ c.emitted)
     have : trackedIdx (c.ops.map (fun x => (x.1, g x.1 x.2))) = trackedIdx c.ops := by
       simp only [trackedIdx, List.filterMap_map, Function.comp_def, (hg _ _).2.1]
@@ -878,7 +927,12 @@ theorem failExceeding_pres (e : Engine) : Pres e e.failExceeding.1 := by
 theorem Pres.of_core_wc {e e' : Engine} (wc' : List Nat) (h : e'.core = { e.core with pendingWC := wc' })
     (hsub : ∀ x ∈ wc', x ∈ e.core.pendingWC) : Pres e e' := fun hk => by
   rw [h]
-  exact ⟨⟨hk.sorted, hk.ids, hk.userKind, fun i hi => hk.wc i (hsub i hi), hk.slow⟩, List.Perm.refl _⟩
+  exact ⟨⟨hk.sorted, hk.ids, hk.userKind, fun i hi => hk.wc i (hsub i hi), hk.slow, hk.to⟩, List.Perm.refl _⟩
+
+theorem Pres.of_core_wc_to {e e' : Engine} (wc' : List Nat) (t : List (Nat × Nat)) (h : e'.core = { e.core with pendingWC := wc', timeouts := t })
+    (hsub : ∀ x ∈ wc', x ∈ e.core.pendingWC) (ht : ∀ x ∈ t, x ∈ e.core.timeouts) : Pres e e' := fun hk => by
+  rw [h]
+  exact ⟨⟨hk.sorted, hk.ids, hk.userKind, fun i hi => hk.wc i (hsub i hi), hk.slow, fun x hx => hk.to x (ht x hx)⟩, List.Perm.refl _⟩
 
 theorem closeFailStage_pres (e3 : Engine) : Pres e3 e3.closeFailStage.1 := by
   let e4 : Engine := { e3 with highQ := [] }
@@ -923,7 +977,7 @@ theorem handleClosed_pres (e : Engine) : Pres e e.handleClosed.1 := by
   · exact Pres.refl _
   · simp only []
     have h0 : Pres e { e with state := .disconnected, connackDeadline := none, nextPing := none, pingDeadline := none, timeouts := [] } :=
-      Pres.of_core_conn false rfl (by simp)
+      Pres.of_core_conn_to false [] rfl (by simp) (by simp)
     have hs0 : ({ e with state := .disconnected, connackDeadline := none, nextPing := none, pingDeadline := none, timeouts := [] } : Engine).state = .disconnected := rfl
     generalize ({ e with state := .disconnected, connackDeadline := none, nextPing := none, pingDeadline := none, timeouts := [] } : Engine) = e0 at h0 hs0 ⊢
     have h1 := h0.trans (closeCurrent_pres e0)
@@ -1016,10 +1070,10 @@ theorem handleConnack_pres (e : Engine) (c : Connack) : Pres e (e.handleConnack 
           by_cases hd : e.cfg.drainOneAtATime = true
           · have : (!e1.cfg.drainOneAtATime) = false := by simp [e1, hd]
             rw [if_neg (by simp [this])]
-            exact ⟨⟨hok.sorted, hok.ids, hok.userKind, hok.wc, fun _ _ => rfl⟩, List.Perm.refl _⟩
+            exact ⟨⟨hok.sorted, hok.ids, hok.userKind, hok.wc, fun _ _ => rfl, hok.to⟩, List.Perm.refl _⟩
           · have : (!e1.cfg.drainOneAtATime) = true := by simp [e1, hd]
             rw [if_pos this]
-            exact ⟨⟨hok.sorted, hok.ids, hok.userKind, hok.wc, fun h _ => absurd h hd⟩, List.Perm.refl _⟩
+            exact ⟨⟨hok.sorted, hok.ids, hok.userKind, hok.wc, fun h _ => absurd h hd, hok.to⟩, List.Perm.refl _⟩
         have h3 := h2.trans (applySessionPresent_pres e1.initSlowStart c.sessionPresent)
         exact Pres.ite h3 (h3.trans (Pres.of_core_eq rfl))
 
@@ -1114,7 +1168,7 @@ theorem handlePubrec_pres (e : Engine) (a : Ack) : Pres e (e.handlePubrec a).1 :
           intro hok
           have hid := hok.id_eq (show e.core.ops.lookup opId = some o from ho)
           have h1 := setOp_pres e o { o with pubrel := some (.pubrel { packetId := a.packetId }) }
-            (by simpa [hid] using ho) rfl rfl rfl rfl
+            (by simpa [hid] using ho) rfl rfl rfl rfl rfl
           cases henq : (e.setOp { o with pubrel := some (.pubrel { packetId := a.packetId }) }).enqueue opId .high false with
           | none => exact h1 hok
           | some e2 => exact (h1.trans (enqueue_pres _ _ _ _ _ henq)) hok
@@ -1300,7 +1354,7 @@ theorem Pres.push_wc {e e' : Engine} (id : Nat) (o : Op) (b : Bool)
     (h : e'.core = { e.core with pendingWC := e.core.pendingWC ++ [id], connected := b })
     (hb : b = true → e.core.connected = true) (ho : e.op? id = some o) (hk : isSubUnsub o.packet = false) : Pres e e' := fun hok => by
   rw [h]
-  refine ⟨⟨hok.sorted, hok.ids, hok.userKind, ?_, fun hd hc => hok.slow hd (hb hc)⟩, List.Perm.refl _⟩
+  refine ⟨⟨hok.sorted, hok.ids, hok.userKind, ?_, fun hd hc => hok.slow hd (hb hc), hok.to⟩, List.Perm.refl _⟩
   intro i hi
   rcases List.mem_append.mp hi with hi | hi
   · exact hok.wc i hi
@@ -1314,8 +1368,31 @@ theorem Pres.push_wc {e e' : Engine} (id : Nat) (o : Op) (b : Bool)
 theorem armPingDeadline_core (e : Engine) (o : Op) : (e.armPingDeadline o).core = e.core := by
   unfold Engine.armPingDeadline; split <;> rfl
 
-theorem startAckTimeout_core (e : Engine) (id : Nat) : (e.startAckTimeout id).core = e.core := by
-  unfold Engine.startAckTimeout; split <;> rfl
+/-- `start_operation_ack_timeout` records a deadline only for a tracked operation that has an ack timeout -/
+theorem startAckTimeout_pres (e : Engine) (id : Nat) : Pres e (e.startAckTimeout id) := by
+  intro hok
+  unfold Engine.startAckTimeout
+  split
+  · rename_i t heq
+    cases ho : e.op? id with
+    | none => rw [ho] at heq; cases heq
+    | some o =>
+      rw [ho] at heq
+      have hat : o.ackTimeout = some t := by simpa using heq
+      refine ⟨⟨hok.sorted, hok.ids, hok.userKind, hok.wc, hok.slow, ?_⟩, List.Perm.refl _⟩
+      intro x hx
+      rcases List.mem_append.mp (show x ∈ e.timeouts ++ [(id, e.now + t)] from hx) with hx | hx
+      · exact hok.to x hx
+      · have : x = (id, e.now + t) := by simpa using hx
+        subst this
+        refine ⟨(hok.ids _ (mem_of_lookup (show e.core.ops.lookup id = some o from ho))).2, fun o' ho' => ?_⟩
+        have : o' = o := by
+          have h1 : e.ops.lookup id = some o := ho
+          have h2 : e.ops.lookup id = some o' := ho'
+          rw [h1] at h2
+          exact (Option.some.inj h2).symm
+        rw [this, hat]; rfl
+  · exact ⟨hok, List.Perm.refl _⟩
 
 theorem fileWritten_pres (e : Engine) (id : Nat) (o : Op) (ho : e.op? id = some o) :
     Pres e (e.fileWritten id o) ∧ (e.fileWritten id o).ops = e.ops := by
@@ -1348,12 +1425,9 @@ theorem onFullyWritten_pres (e e3 : Engine) (h : e.onFullyWritten = some e3) : P
       have hid := hok.id_eq (show e.core.ops.lookup id = some o from ho)
       have hf := fileWritten_pres e id o ho
       have hs := setOp_pres (e.fileWritten id o) o { o with pingBase := some e.now }
-        (by simp only [Engine.op?, hf.2, hid]; exact ho) rfl rfl rfl rfl
+        (by simp only [Engine.op?, hf.2, hid]; exact ho) rfl rfl rfl rfl rfl
       subst h
-      exact ((hf.1.trans hs).trans (Pres.of_core_eq (by
-          show (Engine.armPingDeadline (Engine.startAckTimeout _ id) o).core = _
-          rw [armPingDeadline_core]
-          exact startAckTimeout_core _ id))) hok
+      exact (((hf.1.trans hs).trans (startAckTimeout_pres _ id)).trans (Pres.of_core_eq (armPingDeadline_core _ o))) hok
 
 def Seat.eng : Seat → Engine
   | .ret e _ => e
@@ -1510,7 +1584,8 @@ theorem processAckTimeouts_pres : ∀ (fuel : Nat) (e : Engine), Pres e (Engine.
       obtain ⟨id, deadline⟩ := x
       simp only []
       split
-      · have h1 : Pres e { e with timeouts := e.timeouts.erase (id, deadline) } := Pres.of_core_eq rfl
+      · have h1 : Pres e { e with timeouts := e.timeouts.erase (id, deadline) } :=
+          Pres.of_core_wc_to e.pendingWC (e.timeouts.erase (id, deadline)) rfl (fun _ hx => hx) (fun _ hx => List.mem_of_mem_erase hx)
         have h2 := h1.trans (completeFailure_pres { e with timeouts := e.timeouts.erase (id, deadline) } id "AckTimeout")
         generalize ({ e with timeouts := e.timeouts.erase (id, deadline) } : Engine).completeFailure id "AckTimeout" = y at h2 ⊢
         obtain ⟨e2, r⟩ := y
@@ -1602,7 +1677,7 @@ theorem reset_pres (e : Engine) : Pres e e.reset := by
   generalize e0.failAll (e0.ops.map (·.1)) "ClientClosed" = y at h1 hops ⊢
   obtain ⟨e1, r⟩ := y
   simp only [] at h1 hops ⊢
-  refine h1.trans (Pres.of_core_wc [] ?_ (by simp))
+  refine h1.trans (Pres.of_core_wc_to [] [] ?_ (by simp) (by simp))
   simp only [Engine.core, hops]
 
 /-! ### one step, and every history -/
@@ -1621,7 +1696,7 @@ theorem finish_spec {l : List Nat} {e e1 : Engine} (r : Res) (h : PresAdd l e e1
     (e1.finish r).1.core.Ok ∧ (e1.finish r).1.outComps = [] ∧
     (trackedIdx (e1.finish r).1.ops ++ (e1.finish r).2.completions.map (·.1)).Perm (l ++ trackedIdx e.ops) := by
   obtain ⟨h1, hp⟩ := h hok
-  refine ⟨⟨h1.sorted, h1.ids, h1.userKind, h1.wc, h1.slow⟩, rfl, ?_⟩
+  refine ⟨⟨h1.sorted, h1.ids, h1.userKind, h1.wc, h1.slow, h1.to⟩, rfl, ?_⟩
   have : e.core.Q = trackedIdx e.ops := by simp [Core.Q, Engine.core, hq]
   rw [this] at hp
   exact hp
@@ -1673,7 +1748,7 @@ def runEvents : Engine → List Event → Engine × List (Nat × Completion)
 
 theorem new_core_ok (cfg : Config) : (Engine.new cfg).core.Ok :=
   ⟨List.Pairwise.nil, (fun x hx => by cases hx), (fun x hx => by cases hx), (fun i hi => by cases hi),
-    (fun _ hc => by simp [Engine.core, Engine.new] at hc)⟩
+    (fun _ hc => by simp [Engine.core, Engine.new] at hc), (fun x hx => by simp [Engine.core, Engine.new] at hx)⟩
 
 theorem run_conserves : ∀ (evs : List Event) (e : Engine), e.core.Ok → e.outComps = [] →
     (runEvents e evs).1.core.Ok ∧ (runEvents e evs).1.outComps = [] ∧
